@@ -129,6 +129,7 @@ fn posix_err(msg: &'static str) -> Error {
         "Not a directory" => ErrorKind::NotADirectory,
         "Is a directory" => ErrorKind::IsADirectory,
         "Directory not empty" => ErrorKind::DirectoryNotEmpty,
+        "Invalid argument" => ErrorKind::InvalidInput,
         "No space left on device" => ErrorKind::StorageFull,
         _ => ErrorKind::Other,
     };
